@@ -277,8 +277,14 @@ class SymBool:
     __rmul__ = __mul__
 
     def __add__(self, o):
-        raise HarnessError('SymBool + x is ambiguous (numpy OR vs python int add); '
-                           'handle at the call site')
+        # python semantics (builtin sum over flags): True + 1 == 2.  bool + bool is ambiguous (numpy
+        # arrays OR them, python adds them) and must be handled at the call site
+        if isinstance(o, (SymBool, bool, np.bool_)):
+            raise HarnessError('SymBool + bool is ambiguous (numpy OR vs python int add); '
+                               'handle at the call site')
+        if isinstance(o, np.ndarray):
+            return NotImplemented
+        return self.as_bit() + o
     __radd__ = __add__
 
     def __int__(self):
@@ -898,12 +904,30 @@ class SymReal:
 
     def __pow__(self, o):
         c = _conc_int(o)
-        if c is not None and 0 <= c <= 4:
+        if c is None and isinstance(o, (float, np.floating, Fraction)):
+            fr = Fraction(float(o)).limit_denominator(12)
+            if abs(float(fr) - float(o)) < 1e-12:
+                return self._pow_frac(fr)
+        if c is not None and 0 <= c <= 6:
             r = z3.RealVal(1)
             for _ in range(c):
                 r = r * self.t
             return SymReal(r)
-        raise HarnessError('SymReal ** non-small-int not modelled')
+        if c is not None and -6 <= c < 0:
+            return SymReal(z3.RealVal(1)) / (self ** (-c))
+        raise HarnessError(f'SymReal ** {o!r} not modelled')
+
+    def _pow_frac(self, fr: Fraction):
+        """x ** (p/q) for x >= 0: r = q-th root (fresh r >= 0 with r^q = x), then r^p."""
+        if fr.denominator == 1:
+            return self ** int(fr.numerator)
+        eng = engine()
+        r = z3.Real(eng.path_name('root'))
+        rq = r
+        for _ in range(fr.denominator - 1):
+            rq = rq * r
+        eng.pc.append(z3.And(r >= 0, rq == self.t))      # defining constraint, see Engine.sqrt
+        return SymReal(r) ** int(fr.numerator)
 
     def _c(self, o, f):
         if isinstance(o, (float, np.floating)) and (np.isinf(o) or np.isnan(o)):
@@ -1245,8 +1269,9 @@ class Engine:
 
     def sqrt(self, x: SymReal) -> SymReal:
         s = z3.Real(self.path_name('sqrt'))
-        self._push(z3.And(s >= 0, s * s == x.t))
-        self.model = None
+        # a defining (non-linear) constraint: kept in the path condition for the final queries but not
+        # handed to the branch-feasibility solver (which then over-approximates: sound)
+        self.pc.append(z3.And(s >= 0, s * s == x.t))
         return SymReal(s)
 
     # -- exploration
